@@ -598,6 +598,9 @@ func (c *Conn) Write(payload []byte) (int, error) {
 
 	ctx, cancel := c.contextWithClose(c.writeDeadline)
 	defer cancel()
+	if vtrace.Enabled {
+		vtrace.Gate(c.handshakeConfig, "write.beforeLock")
+	}
 
 	err := c.writeApplicationData(ctx, []*dtlsflight.Packet{
 		c.newApplicationDataPacket(payload),
@@ -717,6 +720,9 @@ func (c *Conn) Close() error {
 	c.closeLock.Unlock()
 	if handshakeDone != nil {
 		<-handshakeDone
+	}
+	if vtrace.Enabled {
+		vtrace.Emit(c.handshakeConfig, "close.return", "client", dtlsstate.CommonState(c.state).IsClient, "err", err != nil)
 	}
 
 	return err
@@ -2721,6 +2727,11 @@ func (c *Conn) handshake(ctx context.Context, start handshakeStart) error {
 
 	go func() {
 		defer func() {
+			if vtrace.Enabled {
+				vtrace.Emit(c.handshakeConfig, "reader.exit", "client", dtlsstate.CommonState(c.state).IsClient,
+					"established", c.isHandshakeCompletedSuccessfully(), "closed", c.isConnectionClosed())
+				vtrace.Gate(c.handshakeConfig, "reader.beforeCloseDecrypted")
+			}
 			if c.isHandshakeCompletedSuccessfully() {
 				// Escaping read loop.
 				// It's safe to close the decrypted channel now.
@@ -2735,7 +2746,13 @@ func (c *Conn) handshake(ctx context.Context, start handshakeStart) error {
 			start.postSetup(ctxHs)
 		}
 		for {
+			if vtrace.Enabled {
+				vtrace.Gate(c.handshakeConfig, "reader.beforeRead")
+			}
 			err := c.readAndBuffer(ctxRead)
+			if vtrace.Enabled {
+				vtrace.Gate(c.handshakeConfig, "reader.afterDgram")
+			}
 			if err == nil {
 				continue
 			}
@@ -2758,6 +2775,9 @@ func (c *Conn) handshake(ctx context.Context, start handshakeStart) error {
 			if action == readLoopCloseAndStop {
 				if errors.Is(err, context.Canceled) {
 					c.log.Trace("handshake timeouts - closing underlying connection")
+				}
+				if vtrace.Enabled {
+					vtrace.Gate(c.handshakeConfig, "reader.beforeClose")
 				}
 				_ = c.close(false) //nolint:contextcheck
 			}
@@ -2845,6 +2865,10 @@ func (c *Conn) close(byUser bool) error {
 	if !isClosed {
 		c.closed.Close()
 	}
+	if vtrace.Enabled {
+		vtrace.Emit(c.handshakeConfig, "close.flag", "client", dtlsstate.CommonState(c.state).IsClient, "byUser", byUser,
+			"closedByUser", closedByUser, "isClosed", isClosed, "established", c.isHandshakeCompletedSuccessfully())
+	}
 	c.closeLock.Unlock()
 	if vtrace.Enabled {
 		vtrace.Emit(c.handshakeConfig, "close.enter", "client", dtlsstate.CommonState(c.state).IsClient, "byUser", byUser,
@@ -2858,11 +2882,17 @@ func (c *Conn) close(byUser bool) error {
 	if closedByUser || isClosed {
 		return nil
 	}
+	if vtrace.Enabled {
+		vtrace.Gate(c.handshakeConfig, "close.beforeNotify")
+	}
 
 	if c.isHandshakeCompletedSuccessfully() && byUser {
 		// Discard error from notify() to return non-error on user Close()
 		// even if the underlying connection is already closed.
 		_ = c.notify(context.Background(), alert.Warning, alert.CloseNotify)
+	}
+	if vtrace.Enabled {
+		vtrace.Gate(c.handshakeConfig, "close.beforeConnClose")
 	}
 
 	return c.nextConn.Close()
